@@ -360,3 +360,21 @@ PROPS["C13"] = {
     "assumptions": ["Return() with no values at all is not generated (goom treats it as 'no default yet'; see DESIGN section 5)"],
     "floors": [("mistakes", "class/when-too-few", 30), ("mistakes", "class/ret-too-few", 30), ("mistakes", "class/cb-param-size", 50), ("mistakes", "class/iface-cb-too-few", 30)],
 }
+
+PROPS["C02"] = {
+    "prepare": [prep_corpus],
+    "units": [
+        {"name": "histories", "pkg": "./zverif/c02", "run": "^TestVerifC02$", "timeout": {"quick": 400, "thorough": 2400},
+         "shards": {"quick": 1, "thorough": 16}},
+    ],
+    "rule": "rapid histories of 2..25 operations (Apply, Return, Origin+Apply with a forwarding callback, Cancel of one handle, Reset, double Reset, calls of "
+            "untouched neighbours) by 3 builders and 2 handle kinds (Func, Pkg.ExportFunc) over a window of 5 corpus functions, most operations hitting "
+            "one focus target. After every step the whole executable image is diffed against the pristine snapshot: the difference must lie inside "
+            "the 13 entry bytes of targets with a live mocker and the bodies of used origin placeholders; unmocked targets have pristine entry bytes and "
+            "run their original body, unambiguously mocked targets show the entry jump and behave by their latest mock; where two owners shared a "
+            "target and one restored, only the byte invariant and 'pristine bytes <=> original behaviour' are asserted. After all builders are reset "
+            "the image is pristine outside placeholder bodies. Non-trivial: a restore after a re-apply or with a second owner; distinct by window and op sequence.",
+    "assumptions": ["calls that reach an origin placeholder run with stack headroom and GC paused (open finding C03/origin-morestack-reentry is excluded by construction)"],
+    "floors": [("histories", "history/restore-after-reapply-or-second-owner", 100), ("histories", "history/two-owners-on-one-target", 50),
+               ("histories", "history/with-origin-placeholder", 50)],
+}
